@@ -53,7 +53,7 @@ func checkC09(p *core.Program, r *core.Report) {
 	// an error: the handler is then the helper's only caller and the helper's paths are spliced into the handler's
 	var inlined *ssa.Function
 	ensureCallSites(p)
-	if res := h.Signature.Results(); res.Len() == 1 && types.TypeString(res.At(0).Type(), nil) == "error" && h.Object() != nil && !h.Object().Exported() {
+	if res := h.Signature.Results(); (res.Len() == 0 || (res.Len() == 1 && types.TypeString(res.At(0).Type(), nil) == "error")) && h.Object() != nil && !h.Object().Exported() && !isStateHandler(p, h) {
 		var caller *ssa.Function
 		unique := true
 		for _, cs := range gCallSites[h] {
@@ -200,8 +200,8 @@ func checkC09(p *core.Program, r *core.Report) {
 				}
 			}
 			res := xitem{resOf: call}
-			if len(ret2.Results) == 1 && types.TypeString(ret2.Results[0].Type(), nil) == "error" {
-				rv := ret2.Results[0]
+			if n := len(ret2.Results); n >= 1 && types.TypeString(ret2.Results[n-1].Type(), nil) == "error" {
+				rv := ret2.Results[n-1]
 				for i := 0; i < 4; i++ {
 					if phi, isPhi := rv.(*ssa.Phi); isPhi {
 						if nv := core.PhiOnPath(phi, blocks2); nv != nil {
@@ -298,7 +298,7 @@ func checkC09(p *core.Program, r *core.Report) {
 					subs = hp
 				}
 			}
-			if call, isCall := it.In.(*ssa.Call); it.Cond == nil && isCall && inlined != nil && call.Call.StaticCallee() == inlined {
+			if call, isCall := it.In.(*ssa.Call); it.Cond == nil && isCall && ((inlined != nil && call.Call.StaticCallee() == inlined) || isDecodeHelper(p, call.Call.StaticCallee())) {
 				if ip, ok := inlinePaths(call); ok {
 					subs = ip
 				}
@@ -344,6 +344,9 @@ func checkC09(p *core.Program, r *core.Report) {
 				other = bo.X
 			} else if core.IsNilConst(bo.X) {
 				other = bo.Y
+			}
+			if ex, isEx := other.(*ssa.Extract); isEx {
+				other = ex.Tuple
 			}
 			if call, isCall := other.(*ssa.Call); isCall && resFacts[call] != 0 {
 				nonNil := (bo.Op == token.NEQ) == it.Truth
@@ -543,6 +546,19 @@ func checkC09(p *core.Program, r *core.Report) {
 			r.OK(R2, key, p.Pos(s.In.Pos()), "constructor")
 		case s.Fn == h || s.Fn == inlined:
 			_, _, v := core.StoredField(s.In)
+			// in a spliced helper the stored value may be its parameter: judge the caller's argument
+			if pa, isParam := v.(*ssa.Parameter); isParam && s.Fn == inlined {
+				for i, fp := range inlined.Params {
+					if fp != pa {
+						continue
+					}
+					for _, cs := range gCallSites[inlined] {
+						if args := core.Common(cs).Args; i < len(args) {
+							v = args[i]
+						}
+					}
+				}
+			}
 			if u, ok := v.(*ssa.UnOp); ok && u.Op == token.MUL {
 				r.OK(R2, key, p.Pos(s.In.Pos()), "stores the presented id")
 			} else {
@@ -794,4 +810,45 @@ func neverNilError(v ssa.Value) bool {
 		}
 	}
 	return false
+}
+
+// isStateHandler: fn is called from the state dispatcher (a function with a switch over the handshake state that
+// calls many handlers) - such a function is a handler of its own, not a helper to be spliced into its caller.
+func isStateHandler(p *core.Program, fn *ssa.Function) bool {
+	ensureCallSites(p)
+	for _, cs := range gCallSites[fn] {
+		callee := 0
+		seen := map[*ssa.Function]bool{}
+		core.EachInstr(cs.Parent(), func(in ssa.Instruction) {
+			if c, ok := in.(*ssa.Call); ok {
+				if t := c.Call.StaticCallee(); t != nil && p.PkgShort(t) == "ship" && !seen[t] {
+					seen[t] = true
+					callee++
+				}
+			}
+		})
+		if callee >= 8 {
+			return true
+		}
+	}
+	return false
+}
+
+// isDecodeHelper: an unexported function of package ship that decodes a message (calls json.Unmarshal) and hands
+// its verdict back as an error - its checks belong to the decision table of its caller.
+func isDecodeHelper(p *core.Program, fn *ssa.Function) bool {
+	if fn == nil || fn.Blocks == nil || p.PkgShort(fn) != "ship" || fn.Object() == nil || fn.Object().Exported() {
+		return false
+	}
+	res := fn.Signature.Results()
+	if res.Len() == 0 || types.TypeString(res.At(res.Len()-1).Type(), nil) != "error" {
+		return false
+	}
+	dec := false
+	core.EachInstr(fn, func(in ssa.Instruction) {
+		if c := core.Common(in); c != nil && core.CalleeName(c) == "encoding/json.Unmarshal" {
+			dec = true
+		}
+	})
+	return dec
 }
